@@ -193,6 +193,11 @@ def model_line(case, rec, dry):
             k = 0
         else:
             k = max(1, W.line_k(li, n1, m1))
+        if li.get('fh_started') == 0 and k <= 1:
+            # nothing of the entry has been opened yet: whether this instant already counts as inside the guarded
+            # region (a fault then deletes a pre-existing entry) or not (it leaves it) is a freedom of the
+            # implementation that the property does not constrain - both model answers are accepted
+            rec['alt_line'] = f"SAVE mode={mode} n={n1} m={m1} kind=fault k={1 - k} eff=0 del=ok"
         return f"SAVE mode={mode} n={n1} m={m1} kind=fault k={k} eff=0 del=ok"
     k, eff = W.fault_k(tuple(inj), n1, m1)
     return f"SAVE mode={mode} n={n1} m={m1} kind=fault k={k} eff={eff} del=ok"
@@ -343,15 +348,18 @@ def evaluate(recs, dry_of):
             lines.append(ml)
             idxs.append(i)
     outs = driver.run_lines(lines) if lines else []
+    alt_idx = [i for i in idxs if recs[i].get('alt_line')]
+    alt_out = dict(zip(alt_idx, driver.run_lines([recs[i]['alt_line'] for i in alt_idx]))) if alt_idx else {}
     violations, disagreements = [], []
+    strip = lambda mo: ' '.join(w for w in mo.split() if not w.startswith('safe='))
     for i, ml, mo in zip(idxs, lines, outs):
         rec = recs[i]
         rec['model_line'] = ml
         rec['model'] = mo
         ro = real_obs(rec)
         rec['real'] = ro
-        mo_cmp = ' '.join(w for w in mo.split() if not w.startswith('safe='))
-        if rec.get('struck') is not False and ro != mo_cmp:
+        mo_cmp = strip(mo)
+        if rec.get('struck') is not False and ro != mo_cmp and not (i in alt_out and ro == strip(alt_out[i])):
             disagreements.append(dict(case=rec['case'], real=ro, model=mo_cmp, line=ml))
     for rec in recs:
         if rec.get('infra'):
